@@ -220,6 +220,13 @@ class SimPoller(object):
             raise ValueError("closed socket registered")
         self.map[fileobj] = selectors.SelectorKey(fileobj, fileobj.fileno(), events, data)
         self.sim.on_register(fileobj)
+        # A pool thread registering a connection while NOT holding the worker's lock can be overtaken by the loop thread
+        # at exactly this point: if the socket is readable the loop reacts before the pool thread's next statement.
+        w = self.sim.worker
+        if (self.sim.in_callback and isinstance(fileobj, SimSock) and fileobj.readable() and data is not None
+                and not w._lock._is_owned()):
+            self.sim.trace.append(("loop-overtakes-unlocked-register", fileobj.cid, self.sim.clock))
+            data(fileobj)
 
     def unregister(self, fileobj):
         if fileobj not in self.map:
@@ -283,6 +290,8 @@ class Sim(object):
         self.ready_stats = {}
         self.flagged = set()
         self.settled = 0
+        self.in_callback = False
+        self.late_data = False
         self.cancelled = []
         self.patient_clients = False
         self.dispatched = set()
@@ -419,8 +428,17 @@ class Sim(object):
         f.state = "done"
         pool.queue.remove(f)
         self.trace.append(("handled", f.conn_arg.sock.cid, self.clock))
-        for cb in f.callbacks:
-            cb(f)
+        if self.late_data and not f.conn_arg.sock.closed and not f.conn_arg.sock.client_closed:
+            # the client's next request arrives after the handler's last recv() but before the handler finished
+            self.late_data = False
+            f.conn_arg.sock.buf += REQ_KA
+            f.conn_arg.sock.request_count += 1
+        self.in_callback = True
+        try:
+            for cb in f.callbacks:
+                cb(f)
+        finally:
+            self.in_callback = False
         return True
 
     def apply(self, ev):
@@ -442,6 +460,10 @@ class Sim(object):
                     break
         elif kind == "handler":
             self.run_one_handler(ev[1])
+        elif kind == "handler_late_data":
+            self.late_data = True
+            if not self.run_one_handler(ev[1]):
+                self.late_data = False
         elif kind == "time":
             self.clock += ev[1]
         elif kind == "disconnect":
@@ -493,6 +515,12 @@ class Sim(object):
                    {"nr_conns": w.nr_conns, "open": len(open_), "trace": self.trace[-8:]})
         if self.stopped:
             return
+        # an idle keep-alive connection is always watched by the poller (else its next request is never seen)
+        for conn in list(w._keep):
+            if conn.sock not in w.poller.map and not conn.sock.closed and conn.sock.cid not in self.flagged:
+                self.flagged.add(conn.sock.cid)
+                self.V("served-when-thread-free", "keepalive-connection-not-watched",
+                       {"cid": conn.sock.cid, "has_request": conn.sock.complete_request_buffered(), "trace": self.trace[-8:]})
         # keep-alive expiry: an idle connection whose deadline had passed at the last scan must be closed
         for cid, dl in list(self.idle_deadline.items()):
             c = self.conns[cid]
